@@ -72,11 +72,22 @@ Definition wf_fromto (f : a_fromto) : bool :=
   match af_addr f with AFName n => wf_nameaddr n | AFBare a => wf_bare a end &&
   forallb wf_param (af_params f).
 Definition noslash (s : bytes) : bool := safe1 s.          (* safe excludes '/' *)
-Definition wf_via (v : a_via) : bool :=
+(* the token shape of a Via entry *)
+Definition wf_via_shape (v : a_via) : bool :=
   noslash (av_name v) && noslash (av_version v) && noslash (av_transport v) &&
   safe1 (av_host v) && wf_port (av_port v) && forallb wf_param (av_params v).
+(* parseViaParam splits the sent-protocol / sent-by text with strings.Fields, and parseCSeq the
+   whole value: strings.Fields also splits at the UTF-8 encodings of the Unicode white-space
+   runes (U+0085, U+00A0, U+1680, U+2000..U+200A, U+2028, U+2029, U+202F, U+205F, U+3000), and
+   [safe_char] allows bytes >= 128: none of these sequences may occur inside the protocol name,
+   the version, the transport, the host or the CSeq method.  (The separators '/', ' ', ':' the
+   reference printer puts between them are ASCII, so no sequence can span two tokens; the
+   parameters behind the first ';' are not split with Fields.) *)
+Definition via_no_usp (v : a_via) : bool :=
+  no_usp (av_name v) && no_usp (av_version v) && no_usp (av_transport v) && no_usp (av_host v).
+Definition wf_via (v : a_via) : bool := wf_via_shape v && via_no_usp v.
 Definition wf_cseq (c : a_cseq) : bool :=
-  (0 <=? ac_seq c) && (ac_seq c <=? 4294967295) && safe1 (ac_method c).
+  (0 <=? ac_seq c) && (ac_seq c <=? 4294967295) && safe1 (ac_method c) && no_usp (ac_method c).
 
 (* ---- reference printer ---- *)
 Definition rp_param (p : a_param) : bytes :=
